@@ -107,10 +107,16 @@ def _body(t, rng):
     if t == 61:
         return R.u32(0)
     if t == 80:
+        if rng.random() < 0.5:
+            return s(b'tcpip-forward') + b'\x01' + s(b'localhost') + R.u32(0)
         return s(b'keepalive@openssh.com') + b'\x01'
     if t in (81, 82):
         return b''
     if t == 90:
+        if rng.random() < 0.4:
+            return s(b'direct-tcpip') + R.u32(9) + R.u32(1000) + \
+                R.u32(1000) + s(b'dest.example') + R.u32(80) + \
+                s(b'10.0.0.1') + R.u32(4321)
         return s(b'session') + R.u32(9) + R.u32(1000) + R.u32(1000)
     if t == 91:
         return R.u32(0) + R.u32(0) + R.u32(1000) + R.u32(1000)
@@ -216,6 +222,17 @@ def gen_cases(tier, seed):
                                                            'random']),
                                       'cseed': rng.randrange(1 << 30)})
 
+    # the messages with an effect of their own, well-formed, everywhere
+    for role, positions in (('server', SRV_POS), ('client', CLI_POS)):
+        for pos in positions:
+            for strict in (True, False):
+                for t in (7, 80, 90):
+                    for k in range(2):
+                        cases.append({'kind': 'endpoint', 'role': role,
+                                      'pos': pos, 'type': t, 'form': 'min',
+                                      'strict': strict, 'chunk': 'all',
+                                      'cseed': 100 + k})
+
     n = 12 if tier == 'quick' else 150
     for i in range(n):
         cases.append({'kind': 'seqreset', 'role': ['server', 'client'][i % 2],
@@ -263,6 +280,11 @@ async def _probe(process):
     process.exit(0)
 
 
+async def _probe3(stdin, stdout, stderr):
+    stdout.write('PROBE-OK:' + (stdout.channel.get_command() or ''))
+    stdout.channel.exit(0)
+
+
 class _GatedServer(apps.RecServer):
     """Password auth with an async, gated validator"""
 
@@ -280,6 +302,20 @@ class _GatedServer(apps.RecServer):
         if self.gate is not None:
             await self.gate.wait()
         return password == 'pw'
+
+    # what the connection layer hands to the application
+    def session_requested(self):
+        self.order.append('session_requested')
+        return _probe3
+
+    def server_requested(self, listen_host, listen_port):
+        self.order.append(f'server_requested:{listen_host}:{listen_port}')
+        return False
+
+    def connection_requested(self, dest_host, dest_port, orig_host,
+                             orig_port):
+        self.order.append(f'connection_requested:{dest_host}:{dest_port}')
+        return False
 
 
 async def _collect(env, peer, acct, since=None):
@@ -353,7 +389,7 @@ def _endpoint_server(case, inject, mon, viol):
 
         async with scen.Env(loop, server_factory=mk, chunking=case['chunk'],
                             seed=case['cseed'],
-                            server_opts=dict(process_factory=_probe)) as env:
+                            server_opts={}) as env:
             peer = refpeer.RefPeer('client', loop=loop,
                                    strict=case['strict'])
             peer.auto_ignore = False
@@ -597,6 +633,24 @@ def _run_endpoint(case, mon, viol):
 
     for v in acct.get('violations', []):
         viol.append({'mechanism': 'wire_format', 'detail': v})
+
+    # nothing of the connection layer reaches the application before the
+    # peer is authenticated, whatever becomes of the connection afterwards
+    if role == 'server':
+        order = res.get('order') or []
+        upto = order.index('auth_completed') if 'auth_completed' in order \
+            else len(order)
+        early = [x for x in order[:upto]
+                 if x.split(':')[0] in ('session_requested',
+                                        'server_requested',
+                                        'connection_requested')]
+        mon['preauth_app_checked'] = mon.get('preauth_app_checked', 0) + 1
+        if early:
+            viol.append({
+                'mechanism': 'preauth_request_reached_application',
+                'detail': f'role={role} pos={pos} type={t} form='
+                          f'{case["form"]} strict={strict}: {early} before '
+                          f'authentication completed'})
 
     # strict KEX: fatal cases
     if strict and pos in K_POS:
